@@ -115,4 +115,33 @@ PROPS = {
                     thorough="2 keys, 2 further writes; repair fault together with a further write"),
         outside="a write that lands after its commit call returned 'unknown'; TiKV's error classification (adapter, C11)",
     ),
+    "C16": dict(
+        harnesses=[
+            dict(run="pkg/server/etcd.VerifC16Classify", quick=dict(maxcmp=1, maxfail=1), thorough=dict(maxcmp=2, maxfail=2), covers=["rejected", "executed-create", "executed-update", "executed-delete", "compact-probe"]),
+            dict(run="pkg/server/etcd.VerifC16Answers", quick=dict(ops=2, keys=2), thorough=dict(ops=3, keys=2), covers=["create-ok", "update-ok", "update-failed", "delete-ok", "delete-failed", "unguarded-delete-ok", "list-cut", "done"]),
+            dict(run="pkg/server/etcd.VerifC16WatchMapping", quick=dict(keys=1), thorough=dict(keys=2), covers=["put-event", "delete-event", "no-event"]),
+        ],
+        bounds=dict(quick="transactions with 0..1 compares (target MOD/VERSION/CREATE, result EQUAL/GREATER/NOT_EQUAL, 2 keys + the compaction key, symbolic revision), 0..2 success ops and 0..1 failure ops of kind put/range/delete-range with symbolic option flags and optional range_end; answers: histories of 2 supported transactions over 2 keys with symbolic expected revisions, then get / list (limits 0..n+1) / count-only; watch mapping: 1 write before and 1 after the watch",
+                    thorough="0..2 compares, 0..2 failure ops; histories of 3 transactions"),
+        outside="create/version fields kubebrain cannot provide; Count as etcd's total under a limit (kubebrain reports 'at least one more'); revision 1888 with a range end (documented partition-listing escape hatch)",
+    ),
+    "C17": dict(
+        harnesses=[
+            dict(run=B + "VerifC17Prefix", quick=dict(extra=4), thorough=dict(extra=8), covers=["ttl-given"]),
+            dict(run=B + "VerifC17Expiry", quick=dict(ops=1, keys=3, val9=0, between=1), thorough=dict(ops=2, keys=3, val9=0, between=1),
+                 covers=["event-expired", "old-event-kept-ttl-not-elapsed", "young-event-kept", "done"]),
+        ],
+        bounds=dict(quick="keys of 10..14 fully symbolic bytes (> '$') for the TTL decision; expiry: 1-write history over {an Event key, a key that merely contains /events/, a plain key}, compaction mark, 1 further write, symbolic elapsed time, second compaction on an engine without native TTL",
+                    thorough="keys of 10..18 bytes; 2-write histories"),
+        outside="engine-native TTL after updates (memkv AfterFunc, Badger entry TTL); faults during expiry; more than one compaction mark",
+    ),
+    "C18": dict(
+        harnesses=[
+            dict(run="pkg/server/etcd.VerifC18Etcd", covers=["write-applied", "write-forwarded", "write-rejected", "read-served", "read-refused", "watch-served", "watch-forwarded", "watch-rejected"]),
+            dict(run="pkg/server/brain.VerifC18Brain", covers=["write-applied", "write-rejected", "read-served", "read-refused", "watch-served", "watch-rejected"]),
+        ],
+        bounds=dict(quick="every handler of both APIs (etcd Txn x3 shapes, Range get/list/count/partitions, Watch; native Create/Update/Delete/Compact/Get/Range/Count/ListPartition/RangeStream/Watch) x {leader, follower} x {proxy on, off} x {leader reachable, unreachable}; watch start revision symbolic",
+                    thorough="same (the space is finite and enumerated completely)"),
+        outside="concurrent follower reads sharing one in-flight revision fetch (recorded finding C18-singleflight, not checked by this harness: needs an HTTP/singleflight model, see DESIGN.md); the HTTP transport and the etcd proxy client",
+    ),
 }
